@@ -10,6 +10,8 @@ import (
 	"os"
 
 	. "adharness/common"
+
+	ad "github.com/pbenner/autodiff"
 )
 
 const otol = 1e-9
@@ -114,6 +116,9 @@ func (b *brute) T(k int) [][]float64 {
 	return b.tf
 }
 func (b *brute) weight(p []int) float64 {
+	if len(p) == 0 {
+		return 1 // the empty sequence: LogPdf = 0.0
+	}
 	w := b.pi[p[0]] * b.em[b.smap[p[0]]][0]
 	for k := 1; k < len(p); k++ {
 		w *= b.T(k)[p[k-1]][p[k]] * b.em[b.smap[p[k]]][k]
@@ -156,6 +161,24 @@ func propCheck(c Case) string {
 	if isMix(c) {
 		return propCheckMix(c)
 	}
+	if c.Kind == "chmm" || c.Kind == "hhmm" {
+		return propCheckCH(c)
+	}
+	if c.Kind == "pre" {
+		p, _ := observePre(c)
+		want := false
+		for _, s := range c.ZSets {
+			for _, x := range s {
+				if x < 0 || x >= c.M {
+					want = true
+				}
+			}
+		}
+		if p != want && len(c.ZSets) == c.Seqs[0].N {
+			return fmt.Sprintf("Posterior panicked = %v on %v with %d states", p, c.ZSets, c.M)
+		}
+		return ""
+	}
 	obs, err := observe(c)
 	if err != nil {
 		return "implementation failed: " + err.Error()
@@ -175,6 +198,12 @@ func propCheck(c Case) string {
 			}
 		}
 	}
+	return propSeqs(c, obs, pi, tr, tf)
+}
+
+// inference of every sequence against the brute-force enumeration with the given parameters
+func propSeqs(c Case, obs HObs, pi []float64, tr, tf [][]float64) string {
+	m := c.M
 	smap := c.Map
 	if smap == nil {
 		smap = make([]int, m)
@@ -532,7 +561,11 @@ func hunt(o Opts) {
 		for k := 0; k < o.N/2 && !done; k++ {
 			rr := rng.Split()
 			var c Case
-			if k%5 == 4 {
+			if k%7 == 5 {
+				c = genChmm(rr, w)
+			} else if k%7 == 6 {
+				c = genHhmm(rr, w)
+			} else if k%5 == 4 {
 				c = genMix(rr, w)
 			} else if k%5 == 3 {
 				c = genBW(rr, w)
@@ -583,5 +616,154 @@ func knownCheck() []Known {
 				expv(obs.Tf[0][0]), obs.Seqs[0].Vit, expv(obs.Seqs[0].Marg[1][0]))
 		}
 	}
-	return []Known{k}
+	return append([]Known{k}, knownCheckCH()...)
+}
+
+// round 3: final-state restriction on hierarchical / constrained HMMs (fixed witnesses,
+// the same as in coq/C15/PropsCH.v) and NaN matrices of the hierarchical HMM
+func knownCheckCH() []Known {
+	var out []Known
+	whTr := [][]float64{{0.5, 0.25, 0.125, 0.125}, {0.25, 0.25, 0.5, 0.25}, {0.5, 0.25, 0.25, 1}, {0.25, 0.25, 0.5, 0.5}}
+	tree := &TreeJ{A: 0, B: 4, Ch: []TreeJ{{A: 0, B: 2}, {A: 2, B: 4}}}
+	pi4 := []float64{0.25, 0.25, 0.25, 0.25}
+	hh := func(tr [][]float64, final []int) (*hmmObj, error) {
+		return build(Case{Kind: "hhmm", M: 4, Pi: pi4, Tr: tr, Tree: tree, Final: final})
+	}
+	// F-C15-HHMM-FINAL-NAN: final states {3}, leaf {0,1} has no final state
+	k1 := Known{Id: "F-C15-HHMM-FINAL-NAN"}
+	if o, err := hh(whTr, []int{3}); err == nil && math.IsNaN(o.g.Tf.At(0, 0).GetFloat64()) {
+		r := ad.NullFloat64()
+		rec := tableRec{[][]float64{{0, 0}, {0, 0}, {0, 0}, {0, 0}}, 2}
+		o.g.LogPdf(r, rec)
+		if math.IsNaN(r.GetFloat64()) {
+			k1.Still = true
+			k1.What = "leaves {0,1},{2,3}, final states {3}: Tf rows 0,1 are NaN, LogPdf of a length-2 sequence is NaN"
+		}
+	}
+	// F-C15-HHMM-FINAL-LEAK: final states {1,3}, Tf(0,2) > 0
+	k2 := Known{Id: "F-C15-HHMM-FINAL-LEAK"}
+	if o, err := hh(whTr, []int{1, 3}); err == nil {
+		if v := expv(o.g.Tf.At(0, 2).GetFloat64()); v > 0.2 && v < 0.3 {
+			k2.Still = true
+			k2.What = fmt.Sprintf("leaves {0,1},{2,3}, final states {1,3}: Tf[0][2] = %g for the non-final state 2 (12/49)", v)
+		}
+	}
+	// F-C15-HHMM-ZEROROW-NAN: a leaf row without mass inside its leaf
+	k3 := Known{Id: "F-C15-HHMM-ZEROROW-NAN"}
+	zr := [][]float64{{0, 0, 0.125, 0.125}, whTr[1], whTr[2], whTr[3]}
+	if o, err := hh(zr, nil); err == nil && math.IsNaN(o.g.Tr.At(0, 0).GetFloat64()) {
+		k3.Still = true
+		k3.What = "row 0 has no mass inside its leaf {0,1}: NewHhmmTransitionMatrix and NewHmm return no error, Tr rows 0,1 are NaN"
+	}
+	// F-C15-CHMM-FINAL-TIE: cells (0,0),(0,1) tied, final states {1}
+	k4 := Known{Id: "F-C15-CHMM-FINAL-TIE"}
+	cc := Case{Kind: "chmm", M: 3, Pi: []float64{0.5, 0.25, 0.25}, Tr: [][]float64{{0.5, 0.25, 0.25}, {0.25, 0.25, 0.5}, {0.5, 0.25, 0.25}},
+		Cons: [][][2]int{{{0, 0}, {0, 1}}}, Final: []int{1}}
+	if o, err := build(cc); err == nil {
+		if v := expv(o.g.Tf.At(0, 0).GetFloat64()); math.Abs(v-0.5) < 1e-6 {
+			k4.Still = true
+			k4.What = fmt.Sprintf("constraint {(0,0),(0,1)}, final states {1}: Tf[0][0] = %g for the non-final state 0", v)
+		}
+	}
+	return append(out, k1, k2, k3, k4)
+}
+
+// ---------------------------------------------------------------- constrained / hierarchical HMM
+
+func expMat(t [][]float64) [][]float64 {
+	r := make([][]float64, len(t))
+	for i := range t {
+		r[i] = make([]float64, len(t[i]))
+		for j := range t[i] {
+			r[i][j] = expv(t[i][j])
+		}
+	}
+	return r
+}
+
+// Property-level oracle for the wrappers (independent of the Coq model): the constructed Tr is
+// row-stochastic, tied cells are equal, forbidden cells stay zero (chmm) / blocks between
+// different children are constant (hhmm); inference equals the enumeration with the matrices
+// the object holds.  Objects with NaN parameters are the known findings and are skipped.
+func propCheckCH(c Case) string {
+	o, err := build(c)
+	if err != nil {
+		return "" // refused input
+	}
+	obs, err := observeObj(o, c)
+	if err != nil {
+		return "implementation failed: " + err.Error()
+	}
+	if hasBad(obs.Tr) || hasBad(obs.Tf) {
+		return ""
+	}
+	m := c.M
+	tr, tf := expMat(obs.Tr), expMat(obs.Tf)
+	for i := 0; i < m; i++ {
+		s := 0.0
+		for j := 0; j < m; j++ {
+			s += tr[i][j]
+		}
+		if math.Abs(s-1) > 1e-6 {
+			return fmt.Sprintf("row %d of the constructed transition matrix sums to %g", i, s)
+		}
+	}
+	if c.Kind == "chmm" {
+		listed := map[[2]int]bool{}
+		for _, g := range c.Cons {
+			for _, cell := range g {
+				listed[cell] = true
+				if obs.Tr[cell[0]][cell[1]] != obs.Tr[g[0][0]][g[0][1]] {
+					return fmt.Sprintf("tied cells %v and %v differ after Normalize", g[0], cell)
+				}
+			}
+		}
+		zrow := make([]bool, m)
+		for i := range c.Tr {
+			zrow[i] = true
+			for _, x := range c.Tr[i] {
+				if x != 0 {
+					zrow[i] = false
+				}
+			}
+		}
+		for i := 0; i < m; i++ {
+			for j := 0; j < m; j++ {
+				if c.Tr[i][j] == 0 && !listed[[2]int{i, j}] && !(i == j && zrow[i]) && tr[i][j] != 0 {
+					return fmt.Sprintf("forbidden transition (%d,%d) has weight %g", i, j, tr[i][j])
+				}
+			}
+		}
+	} else {
+		var walk func(t TreeJ) string
+		walk = func(t TreeJ) string {
+			for a := range t.Ch {
+				for b := range t.Ch {
+					if a == b {
+						continue
+					}
+					ra, rb := t.Ch[a], t.Ch[b]
+					for i := ra.A; i < ra.B; i++ {
+						for j := rb.A; j < rb.B; j++ {
+							if !near(tr[i][j], tr[ra.A][rb.A]) {
+								return fmt.Sprintf("block (%d..%d) x (%d..%d) of the hierarchical matrix is not constant", ra.A, ra.B, rb.A, rb.B)
+							}
+						}
+					}
+				}
+				if r := walk(t.Ch[a]); r != "" {
+					return r
+				}
+			}
+			return ""
+		}
+		if r := walk(*c.Tree); r != "" {
+			return r
+		}
+	}
+	pi := make([]float64, m)
+	for i := range pi {
+		pi[i] = expv(obs.Pi[i])
+	}
+	return propSeqs(c, obs, pi, tr, tf)
 }
